@@ -1,60 +1,19 @@
-import Blots.Model.Basic
-import Blots.Model.Num
-import Blots.Model.Syntax
-import Blots.Model.Value
+import Blots.Drv.Core
 /-
   Line-protocol driver for the executable model: one request per line, one response per
   line.  A request is the inside of an S-expression list: `cmd arg …`.
+  Handlers live in `Blots/Drv/*.lean`; add new ones to `handlers`.
 -/
 open Blots
 
-def ordStr : Option Ordering → String
-  | none => "none"
-  | some .lt => "lt"
-  | some .eq => "eq"
-  | some .gt => "gt"
-
-def boolStr (b : Bool) : String := if b then "t" else "f"
+def handlers : List (List Sx → Option String) := [
+  Drv.handleCore
+]
 
 def handle (req : List Sx) : String :=
-  match req with
-  | [.atom "ping"] => "pong"
-  | [.atom "veq", a, b] =>
-    match Value.ofSx a, Value.ofSx b with
-    | some x, some y => boolStr (veq x y)
-    | _, _ => "bad-request"
-  | [.atom "vcmp", a, b] =>
-    match Value.ofSx a, Value.ofSx b with
-    | some x, some y => ordStr (vcmp x y)
-    | _, _ => "bad-request"
-  | [.atom "echo-expr", e] =>
-    match Expr.ofSx e with
-    | some x => x.toSx.toStr
-    | none => "bad-request"
-  | [.atom "echo-value", e] =>
-    match Value.ofSx e with
-    | some x => x.toSx.toStr
-    | none => "bad-request"
-  -- numbers
-  | [.atom "num-display", .atom b] =>
-    match parseHex64 b with
-    | some u => encStr (F64.toDisplay ⟨u⟩)
-    | none => "bad-request"
-  | [.atom "num-fixed", .atom b, .atom p] =>
-    match parseHex64 b, p.toNat? with
-    | some u, some n => encStr (F64.toFixed ⟨u⟩ n)
-    | _, _ => "bad-request"
-  | [.atom "num-exp", .atom b, .atom p] =>
-    match parseHex64 b, p.toNat? with
-    | some u, some n => encStr (F64.toExp ⟨u⟩ n)
-    | _, _ => "bad-request"
-  | [.atom "num-parse", .atom s] =>
-    match decStr s with
-    | some str => match F64.parseDec str with
-      | some x => hex64 x.bits
-      | none => "none"
-    | none => "bad-request"
-  | _ => "bad-request"
+  match handlers.findSome? (fun h => h req) with
+  | some r => r
+  | none => "bad-request"
 
 partial def loop (h : IO.FS.Stream) (out : IO.FS.Stream) : IO Unit := do
   let line ← h.getLine
